@@ -1,13 +1,13 @@
 SPECIFICATION TSpec
 CONSTANTS
-  Keys <- K40
-  Cls <- Id40
+  Keys <- K320
+  Cls <- Id320
   Vals = {}
   NIter = 6
   BoundPairs = {}
   MaxKVs = 15
   MinKVs = 7
-  CheckDrift = FALSE
+  CheckDrift = TRUE
 CONSTRAINT HWM
 POSTCONDITION Accepted
 CHECK_DEADLOCK FALSE
